@@ -294,7 +294,7 @@ def render_tokens(rng, toks, directives=True, filename="f.c"):
                 line, cur_file = newline, nf
             else:
                 # the pragma text runs to the end of the line: blanks and tabs at its end belong to it
-                body = rng.choice(["", "once", "omp parallel for", "pack(push, 1)", "{weird: ' \" stuff}", "omp for  ", "unroll(4)\t", "region x \t ", "a  b"])
+                body = rng.choice(["", "once", "omp parallel for", "pack(push, 1)", "{weird: ' \" stuff}", "omp for  ", "unroll(4)\t", "region x \t ", "a  b", "include C:\\dir\\", "omp parallel \\", "\\"])
                 pl, pc = line, col
                 emit(rng.choice(["#pragma", "# pragma", "#\tpragma"]))
                 pcol = col - 6
